@@ -14,6 +14,7 @@ type docsetOpts struct {
 	manyConj   bool // sometimes a document with many conjunctions
 	multiSat   bool // bias to several simultaneously satisfied conjunctions (C04)
 	mixedSizes bool // bias to mixed sizes / early exit (C02)
+	noPre      bool // do not give the builder an earlier generation
 	valueShape func(r *Rand, vals []int64) TV
 	queryShape func(r *Rand, vals []int64) TV
 }
@@ -171,6 +172,12 @@ func genDocset(r *Rand, o *docsetOpts) eCase {
 		q.Debug = r.Chance(20)
 		c.Queries = append(c.Queries, q)
 	}
+	if r.Chance(25) && !o.noPre { // the builder has already produced an earlier generation (same id range, other documents)
+		o2 := *o
+		o2.noPre = true
+		o2.maxDocs = 4
+		c.Pre = genDocset(r, &o2).Docs
+	}
 	if r.Chance(30) { // several documents per AddDocument call
 		c.Batch = 2 + r.Intn(4)
 	} else if r.Chance(30) && len(c.Docs) > 1 { // an intermediate BuildIndex, then more documents (possibly new fields), then the final build
@@ -228,7 +235,7 @@ func smallScope(kind string, add func(in interface{})) {
 	}
 }
 
-const e2eRule = "seeded document sets (1..maxDocs documents, 1..4 and sometimes 200+ conjunctions, 0..6 expressions over the fields with repetition on one field, 0..4 values from a 6-value alphabet in several Go representations, empty lists, all-negative and empty conjunctions, ids incl. 0 and +-(2^43-1)), every tenth case over 9..16 fields; documents added one per AddDocument call or (30%) in groups of 2..5, (20%) with an intermediate BuildIndex before the remaining documents; 8..20 queries per index (absent/nil/empty/1..3 values per field, an unknown field, repeats, debug options on 20%); thorough adds the exhaustive small scope (2 documents, conjunctions of <=2 atoms over 2 fields x 2 values, all 16 assignments). A case is non-trivial when some query returns a non-empty proper subset of the accepted documents; distinct = distinct input"
+const e2eRule = "seeded document sets (1..maxDocs documents, 1..4 and sometimes 200+ conjunctions, 0..6 expressions over the fields with repetition on one field, 0..4 values from a 6-value alphabet in several Go representations, empty lists, all-negative and empty conjunctions, ids incl. 0 and +-(2^43-1)), every tenth case over 9..16 fields, every eighth with pattern and range fields next to the default ones; documents added one per AddDocument call or (30%) in groups of 2..5, (20%) with an intermediate BuildIndex before the remaining documents, (25%) on a builder that has already built and Reset an earlier generation; 8..20 queries per index (absent/nil/empty/1..3 values per field, an unknown field, repeats, debug options on 20%); thorough adds the exhaustive small scope (2 documents, conjunctions of <=2 atoms over 2 fields x 2 values, all 16 assignments). A case is non-trivial when some query returns a non-empty proper subset of the accepted documents; distinct = distinct input"
 
 func init() {
 	gen := func(kind string, multiSat, mixed bool) func(tier string, r *Rand, add func(in interface{})) {
@@ -264,6 +271,10 @@ func init() {
 				o.nFields = 1 + r.Intn(5)
 				if i%10 == 9 { // wide: many fields, so that a retrieval sorts and scans 9 and more field cursors
 					o.nFields = 9 + r.Intn(8)
+				}
+				if i%8 == 3 { // all three containers in one index (pattern and range fields next to the default ones)
+					add(mixedDocset(r, kind))
+					continue
 				}
 				add(genDocset(r, o))
 			}
